@@ -13,3 +13,5 @@ From Agdb Require Export Auth Paths.
 From Agdb Require Export Collections CollValues.
 (* the whole database in the record store (C05 L3): loaded LAST; unique prefix sd_ (+ load_db) *)
 From Agdb Require Export StoredDb.
+(* the outcome of loading a database from an arbitrary record store (C07): loaded LAST; unique prefix lo_ (+ load_outcome and the constructors Loaded, LErr, LPanic, LHugeAlloc, LFresh, LLegacy) *)
+From Agdb Require Export LoadOutcome.
